@@ -138,6 +138,9 @@ func genV1Methods() {
 	}
 	lf.def("v1IdMethods", "List (String × Bool × List String)", "[\n  "+strings.Join(rows, ",\n  ")+"]",
 		"every exported method that builds a file name from a caller-supplied []byte id (source order): (receiver.method, its first statement is `if !keystore.ValidateID(id) { return …, keystore.ErrInvalidClientID }`, the name functions applied to the id)")
+	const bk = "keystore/filesystem/filesystem_backup.go"
+	lf.def("v1ImportCalls", "List String", strList(callSeq(funcDecl(bk, "KeyBackuper", "Import"), "isInsideFolder", "MkdirAll", "TempFile", "WriteFile", "Rename")), bk+": KeyBackuper.Import – the containment check of the names and the storage calls, in source order")
+	lf.def("v1IsInsideFolderBody", "List String", strList(bodyStmts(funcDecl(bk, "", "isInsideFolder"))), bk+": isInsideFolder")
 	lf.def("v1OtherByteMethods", "List String", strList(others), "exported methods with a []byte parameter that is not turned into a file name")
 	lf.def("v1PathMethods", "List String", strList(paths), "exported methods that take file names / paths / cache keys as strings (plumbing used inside the package and by the backup code)")
 }
